@@ -392,7 +392,43 @@ def rule_f6(ctx):
                     res.ok({"function": f["id"], "site": site, "idiom": "I5 cursor arithmetic on line / column"})
                 else:
                     res.bad(Finding("F6", f["id"], "%s not a cursor step" % site, "arithmetic that can trap and is not a constant cursor step", sp))
-    res.note("trapping arithmetic sites in scan.rs / parse.rs: %d" % n)
+    # the renderer (Error::prettify / prettify_meta): locations come from the error, the text from the caller - nothing
+    # orders two of these values unless the code compares them first
+    m = 0
+    for f in [f for f in front_fns(ctx, ("lib.rs",)) if "prettify" in f["id"]]:
+        body = ctx.body(f["id"])
+        for (b, kind, ops, sp) in mir.trapping_arith_sites(body):
+            m += 1
+            site = kind.split(" on ")[0]
+            consts = [o.get("val") for o in ops if o["k"] == "const"]
+            tys = {o["place"]["ty"] for o in ops if o["k"] in ("copy", "move")}
+            small = consts and all(isinstance(c, int) and abs(c) <= 2 for c in consts)
+            if small and tys <= {"i64", "i128"}:
+                res.ok({"function": f["id"], "site": site, "idiom": "I7 line window: a widened (i64) line number moved by a constant <= 2"})
+                continue
+            if small and "Add" in kind:
+                res.ok({"function": f["id"], "site": site, "idiom": "I5 a position (bounded by the input length) plus a constant <= 2"})
+                continue
+            vars_ = [o for o in ops if o["k"] in ("copy", "move")]
+            guarded = False
+            if len(vars_) == 2 and "Sub" in kind:
+                k0 = {(r, tuple(p)) for (r, p) in body.deep_sources(vars_[0], 3)}
+                k1 = {(r, tuple(p)) for (r, p) in body.deep_sources(vars_[1], 3)}
+                for gb, blk in enumerate(body.blocks):
+                    for st in blk["stmts"]:
+                        if st["k"] == "assign" and st["rv"]["k"] == "binop" and st["rv"]["op"] in ("Lt", "Le", "Gt", "Ge") and body.dominates(gb, b):
+                            lk = {(r, tuple(p)) for (r, p) in body.deep_sources(st["rv"]["l"], 3)}
+                            rk = {(r, tuple(p)) for (r, p) in body.deep_sources(st["rv"]["r"], 3)}
+                            if (lk == k0 and rk == k1) or (lk == k1 and rk == k0):
+                                guarded = True
+            if guarded:
+                res.ok({"function": f["id"], "site": site, "idiom": "I8 difference of two positions after comparing them"})
+            else:
+                res.bad(Finding("F6", f["id"], "%s in the error renderer" % site,
+                                "arithmetic on positions taken from the error / the text that traps when they are not ordered as assumed (rendering must never fail)", sp))
+    res.note("trapping arithmetic sites in scan.rs / parse.rs: %d; in the renderer: %d" % (n, m))
+    if m < 2 and not res.findings:
+        raise AnchorMissing("F6: expected the line-window arithmetic of prettify_meta (3 sites on the pinned tree), found %d" % m)
     return res
 
 
